@@ -149,3 +149,62 @@ Theorem C13_generated_hidden_is_model :
     gen_hidden H E text passwd = Py.Ok (PBytes (hidden K x)).
 Proof. exact gen_hidden_is_model. Qed.
 Print Assumptions C13_generated_hidden_is_model.
+
+(* ---- translator tie: the definitions generated from the current source of
+   PoorSession.write / destroy / load / header (gen/SessionGen.v, by
+   harness/py2v_session.py, semantics lib/PySession.v) are the model, for
+   every key, codec, configuration, state and argument.  A method is run on
+   (context, state) and yields (state afterwards, result or exception). *)
+Require Import PW.lib.PySession PW.gen.SessionGen PW.proofs.SessionGenEq.
+
+(* write(): the model's new state and the returned str; when a codec raises,
+   that exception with the object untouched *)
+Theorem C13_generated_write_is_model :
+  forall K J (C : codec J) cfg (st : state J),
+    gen_write (mkctx K C cfg) st =
+    match Session.write K J C cfg st with
+    | Session.Ok (st', raw) => (st', ROk (SStr raw))
+    | Session.Raised _ => (st, RErr XOther)
+    end.
+Proof. exact gen_write_is_model. Qed.
+Print Assumptions C13_generated_write_is_model.
+
+(* destroy(): the model's state afterwards; returns None, never raises *)
+Theorem C13_generated_destroy_is_model :
+  forall K J (C : codec J) cfg (st : state J),
+    gen_destroy (mkctx K C cfg) st = (Session.destroy J cfg st, ROk SNone).
+Proof. exact gen_destroy_is_model. Qed.
+Print Assumptions C13_generated_destroy_is_model.
+
+(* load(cookies), for every value of the argument ([entry_of]: the cookie
+   value under the session id of a SimpleCookie, None for a SimpleCookie
+   without that name and for every other object): the model's state
+   afterwards (self.data is assigned before the dictionary test) and what
+   leaves the call, by the model's exception name ([left_by]: None = returned
+   None; the two SessionError messages are in the generated term and are
+   erased here, the model has no messages) *)
+Theorem C13_generated_load_is_model :
+  forall K J (C : codec J) cfg (st : state J) (cookies : sv J),
+    fst (gen_load cookies (mkctx K C cfg) st) =
+      fst (Session.load K J C st (entry_of cookies)) /\
+    left_by (snd (gen_load cookies (mkctx K C cfg) st)) =
+      left_by_model (snd (Session.load K J C st (entry_of cookies))).
+Proof. exact gen_load_is_model. Qed.
+Print Assumptions C13_generated_load_is_model.
+
+(* header(headers), for headers None or a Headers / Response object
+   ([headers_arg]; what add_header does to that object is outside the
+   model): write() runs first; the model's state afterwards and the returned
+   list [("Set-Cookie", text)] where the text carries the model's cookie
+   value and rendered attributes ([header_pairs]); when write() raises, that
+   exception with the object untouched *)
+Theorem C13_generated_header_is_model :
+  forall K J (C : codec J) cfg (st : state J) (h : sv J),
+    headers_arg h ->
+    gen_header h (mkctx K C cfg) st =
+    match Session.header K J C cfg st with
+    | Session.Ok (st', (raw, attrs)) => (st', ROk (header_pairs raw attrs))
+    | Session.Raised _ => (st, RErr XOther)
+    end.
+Proof. exact gen_header_is_model. Qed.
+Print Assumptions C13_generated_header_is_model.
